@@ -30,11 +30,15 @@ def main():
     rc = 0
     import extract_facts
     jobs = [('Facts.v', lambda: extract_facts.generate(repo))]
-    try:
+    if os.path.exists(os.path.join(HERE, 'skeleton_ir.py')):
         import skeleton_ir
         jobs.append(('StreamOps.v', lambda: skeleton_ir.generate(repo)))
-    except ImportError:
-        pass
+    # per-property translators: tools/facts_<Name>.py with generate(repo) -> text of Gen/Facts<Name>.v
+    import importlib
+    for fn in sorted(os.listdir(HERE)):
+        if fn.startswith('facts_') and fn.endswith('.py'):
+            mod = importlib.import_module(fn[:-3])
+            jobs.append(('Facts%s.v' % fn[6:-3], (lambda m: (lambda: m.generate(repo)))(mod)))
     for name, fn in jobs:
         try:
             text = fn()
